@@ -42,6 +42,8 @@ def main():
     else:
         wt = os.path.join(SRC, "apply")
         sh("git -C %s checkout -- . && git -C %s clean -fdq" % (wt, wt))
+        head = sh("git -C /repo rev-parse HEAD").stdout.strip()
+        sh("git -C %s checkout -q --detach %s" % (wt, head))  # the scratch tree follows /repo's HEAD
         r = sh("git -C %s apply %s" % (wt, patch))
         if r.returncode != 0:
             print("patch does not apply:", r.stdout)
